@@ -21,7 +21,7 @@ const (
 	nKeys    = 6
 	curEpoch = 10
 
-	fpBinXHdr   = "C28:binary-header-recheck-drops-xheaders"
+	fpBinXHdr = "C28:binary-header-recheck-drops-xheaders"
 )
 
 // request kinds (RPCs served by the object server)
@@ -271,7 +271,20 @@ func genTable(t *rapid.T, label string, focusOp string, requester int) tableSpec
 	return tb
 }
 
-func genMask(t *rapid.T, effOp string, role string) uint32 {
+func genMask(t *rapid.T, req, effOp string) uint32 {
+	m := genMaskBase(t, effOp)
+	if req == kPut { // the sticky bit only matters for puts: make both values common there
+		switch rapid.IntRange(0, 3).Draw(t, "put-sticky") {
+		case 0, 1:
+			m |= 1 << 29
+		case 2:
+			m &^= 1 << 29
+		}
+	}
+	return m
+}
+
+func genMaskBase(t *rapid.T, effOp string) uint32 {
 	switch k := rapid.IntRange(0, 9).Draw(t, "mask-kind"); {
 	case k == 0:
 		return rapid.SampledFrom(presets).Draw(t, "preset")
@@ -288,7 +301,6 @@ func genMask(t *rapid.T, effOp string, role string) uint32 {
 		if rapid.IntRange(0, 3).Draw(t, "mask-sticky") != 0 {
 			m &^= 1 << 29
 		}
-		_ = role
 		return m
 	}
 }
@@ -325,7 +337,7 @@ func genCase(t *rapid.T) caseSpec {
 	if c.Req == kPut && rapid.IntRange(0, 4).Draw(t, "tombstone") == 0 {
 		c.Obj.Type = "TOMBSTONE"
 	}
-	if rapid.IntRange(0, 2).Draw(t, "obj-owner-is-requester") != 0 {
+	if rapid.IntRange(0, 2).Draw(t, "obj-owner-is-requester") != 0 || (c.Req != kPut && rapid.Bool().Draw(t, "obj-owner-is-requester2")) {
 		c.Obj.Owner = c.Requester
 	} else {
 		c.Obj.Owner = rapid.IntRange(0, nKeys-1).Draw(t, "obj-owner")
@@ -337,7 +349,7 @@ func genCase(t *rapid.T) caseSpec {
 	c.RespForm = rapid.IntRange(0, 1).Draw(t, "resp-form")
 
 	effOp := refEffectiveOp(c, refRole(c))
-	c.Mask = genMask(t, effOp, roleClass)
+	c.Mask = genMask(t, c.Req, effOp)
 
 	if rapid.IntRange(0, 4).Draw(t, "has-stored") != 0 {
 		tb := genTable(t, "stored", effOp, c.Requester)
